@@ -842,6 +842,312 @@ struct Env {
 	n: u64,
 }
 
+// ---------------------------------------------------------------------------------------------------------------
+// Fragment family: a WebSocket peer that writes its own frames (FIN bit, opcode, control frames between fragments).
+// The statement quantifies "processed normally" over single-frame messages; what is judged here is its first clause
+// only - bytes beyond max_request_body_size are never dispatched to a handler, however they are spread over frames -
+// everything else is counted.
+
+struct FrameWs {
+	io: tokio::io::DuplexStream,
+	buf: Vec<u8>,
+}
+
+impl FrameWs {
+	async fn connect(mut io: tokio::io::DuplexStream) -> Result<FrameWs, String> {
+		let req = "GET / HTTP/1.1\r\nHost: localhost\r\nUpgrade: websocket\r\nConnection: Upgrade\r\nSec-WebSocket-Key: dGhlIHNhbXBsZSBub25jZQ==\r\nSec-WebSocket-Version: 13\r\n\r\n";
+		io.write_all(req.as_bytes()).await.map_err(|e| e.to_string())?;
+		let mut buf = Vec::new();
+		let mut tmp = [0u8; 1024];
+		loop {
+			if let Some(p) = buf.windows(4).position(|w| w == b"\r\n\r\n") {
+				let head = String::from_utf8_lossy(&buf[..p]).to_string();
+				if !head.starts_with("HTTP/1.1 101") {
+					return Err(format!("upgrade refused: {}", head.lines().next().unwrap_or("")));
+				}
+				buf.drain(..p + 4);
+				return Ok(FrameWs { io, buf });
+			}
+			match tokio::time::timeout(IDLE, io.read(&mut tmp)).await {
+				Ok(Ok(n)) if n > 0 => buf.extend_from_slice(&tmp[..n]),
+				_ => return Err("no upgrade response".into()),
+			}
+		}
+	}
+
+	/// One masked client frame.
+	async fn send_frame(&mut self, fin: bool, opcode: u8, payload: &[u8]) -> bool {
+		let mut f = vec![(if fin { 0x80 } else { 0 }) | opcode];
+		let n = payload.len();
+		if n < 126 {
+			f.push(0x80 | n as u8);
+		} else if n < 65536 {
+			f.push(0x80 | 126);
+			f.extend_from_slice(&(n as u16).to_be_bytes());
+		} else {
+			f.push(0x80 | 127);
+			f.extend_from_slice(&(n as u64).to_be_bytes());
+		}
+		let key = [0x1f, 0x2e, 0x3d, 0x4c];
+		f.extend_from_slice(&key);
+		f.extend(payload.iter().enumerate().map(|(i, b)| b ^ key[i % 4]));
+		self.io.write_all(&f).await.is_ok()
+	}
+
+	/// Next server frame (unmasked): (opcode, payload); None when the connection is idle for `idle` or gone.
+	async fn recv_frame(&mut self, idle: Duration) -> Option<(u8, Vec<u8>)> {
+		let mut tmp = [0u8; 4096];
+		loop {
+			if self.buf.len() >= 2 {
+				let (mut at, len7) = (2usize, (self.buf[1] & 0x7f) as usize);
+				let len = match len7 {
+					126 if self.buf.len() >= 4 => {
+						at = 4;
+						Some(u16::from_be_bytes([self.buf[2], self.buf[3]]) as usize)
+					}
+					127 if self.buf.len() >= 10 => {
+						at = 10;
+						Some(u64::from_be_bytes(self.buf[2..10].try_into().unwrap()) as usize)
+					}
+					126 | 127 => None,
+					n => Some(n),
+				};
+				if let Some(len) = len {
+					if self.buf.len() >= at + len {
+						let opcode = self.buf[0] & 0x0f;
+						let payload = self.buf[at..at + len].to_vec();
+						self.buf.drain(..at + len);
+						return Some((opcode, payload));
+					}
+				}
+			}
+			match tokio::time::timeout(idle, self.io.read(&mut tmp)).await {
+				Ok(Ok(n)) if n > 0 => self.buf.extend_from_slice(&tmp[..n]),
+				_ => return None,
+			}
+		}
+	}
+}
+
+#[derive(Default)]
+struct FragOut {
+	violations: Vec<Violation>,
+	frames_sent: usize,
+	outcome: &'static str,
+	variant: &'static str,
+	oversized: bool,
+}
+
+async fn fragment_case(seed: u64) -> FragOut {
+	let mut r = Rng::new(seed);
+	let mut out = FragOut { outcome: "setup-failed", ..Default::default() };
+	let req = *r.pick(&[100u32, 200, 1000]);
+	let resp = *r.pick(&[64u32, 1000, 65536]);
+	let l = req as usize;
+	let mid = l + 2 + r.usize(l - 4);
+	let size = *r.pick(&[l - 1, l, l + 1, mid, 2 * l - 2]);
+	let Some(m) = build_msg(Shape::EchoStr, size, r.next_u64()) else { return out };
+	let log = Log::default();
+	let cfg = server_cfg(req, resp);
+	let low_level = r.chance(1, 3);
+	let low = LowLevel::new(cfg.clone(), handlers::echo_module(log.clone()));
+	let srv = MemServer::new(cfg, handlers::echo_module(log.clone()));
+	let io = if low_level {
+		let (c, s) = tokio::io::duplex(DUPLEX);
+		low.serve(s);
+		c
+	} else {
+		srv.raw_conn().0
+	};
+	let Ok(mut ws) = FrameWs::connect(io).await else { return out };
+	let bytes = m.text.as_bytes();
+	// 2..3 pieces, each within the limit
+	let k = 2 + r.usize(2);
+	let mut cuts: Vec<usize> = (0..k - 1).map(|_| 1 + r.usize(size - 1)).collect();
+	cuts.sort();
+	cuts.dedup();
+	let mut pieces: Vec<&[u8]> = Vec::new();
+	let mut at = 0;
+	for c in &cuts {
+		pieces.push(&bytes[at..*c]);
+		at = *c;
+	}
+	pieces.push(&bytes[at..]);
+	if pieces.iter().any(|p| p.len() > l) {
+		// a single frame above the limit is the grid's subject
+		pieces = vec![&bytes[..size / 2], &bytes[size / 2..]];
+	}
+	let variant = r.below(5);
+	out.variant = ["fragments", "fragments+ping", "fragments+pong", "first-fragment+pong+unfragmented-rest", "first-fragment+ping+unfragmented-rest"][variant as usize];
+	out.oversized = size > l;
+	const TEXT: u8 = 1;
+	const CONT: u8 = 0;
+	const PING: u8 = 9;
+	const PONG: u8 = 10;
+	let _ = log.take();
+	let n = pieces.len();
+	for (i, p) in pieces.iter().enumerate() {
+		let last = i + 1 == n;
+		let (fin, opcode) = match variant {
+			0..=2 => (last, if i == 0 { TEXT } else { CONT }),
+			_ => {
+				if i == 0 {
+					(false, TEXT)
+				} else if i == 1 {
+					// the rest of the message as ONE unfragmented text frame (a protocol error after an unfinished fragment)
+					let rest: Vec<u8> = pieces[1..].concat();
+					if i == 1 {
+						let ctl = if variant == 3 { PONG } else { PING };
+						ws.send_frame(true, ctl, b"x").await;
+						out.frames_sent += 1;
+					}
+					ws.send_frame(true, TEXT, &rest).await;
+					out.frames_sent += 1;
+					break;
+				} else {
+					unreachable!()
+				}
+			}
+		};
+		ws.send_frame(fin, opcode, p).await;
+		out.frames_sent += 1;
+		if !last && i == 0 && (variant == 1 || variant == 2) {
+			ws.send_frame(true, if variant == 1 { PING } else { PONG }, b"x").await;
+			out.frames_sent += 1;
+		}
+		if r.chance(1, 3) {
+			tokio::time::sleep(Duration::from_millis(1)).await;
+		}
+	}
+	let (sid, sentinel) = sentinel_text(seed);
+	ws.send_frame(true, TEXT, sentinel.as_bytes()).await;
+	let mut replies: Vec<Vec<u8>> = Vec::new();
+	let mut sentinel_ok = false;
+	let mut closed = false;
+	while let Some((op, payload)) = ws.recv_frame(IDLE).await {
+		match op {
+			1 | 2 => {
+				if serde_json::from_slice::<Value>(&payload).ok().map(|v| v["id"] == json!(sid)).unwrap_or(false) {
+					sentinel_ok = true;
+				} else {
+					replies.push(payload);
+				}
+			}
+			8 => {
+				closed = true;
+				break;
+			}
+			_ => {}
+		}
+	}
+	let inv = log.take();
+	let dispatched = inv.iter().any(|i| i.method == m.method && i.params.as_deref() == Some(m.params.as_str()));
+	let witness = json!({"family": "fragments", "seed": seed, "entry": if low_level { "ws-connect" } else { "tower-ws" }, "req": req, "resp": resp, "size": size, "variant": out.variant,
+		"pieces": pieces.iter().map(|p| p.len()).collect::<Vec<_>>(), "replies": replies.iter().map(|r| clip(r)).collect::<Vec<_>>(), "invocations": inv_json(&inv), "sentinel_answered": sentinel_ok});
+	if out.oversized && dispatched {
+		out.violations.push(Violation::new(
+			format!("oversized-dispatched/{}/{}", if low_level { "ws-connect" } else { "tower-ws" }, out.variant),
+			format!("a message of {size} bytes (limit {req}) sent as frames of {:?} bytes ({}) reached its handler", pieces.iter().map(|p| p.len()).collect::<Vec<_>>(), out.variant),
+			witness.clone(),
+		));
+	}
+	if inv.iter().any(|i| !(i.method == m.method && i.params.as_deref() == Some(m.params.as_str()))) {
+		out.violations.push(Violation::new(
+			format!("handler-ran-for-other-text/{}", out.variant),
+			format!("a handler ran with something that is not the message that was sent: {:?}", inv_json(&inv)),
+			witness,
+		));
+	}
+	out.outcome = if dispatched {
+		"dispatched"
+	} else if replies.iter().any(|r| matches!(classify::parse_reply(r), Ok(r) if r.error_code == Some(TOO_BIG))) {
+		"rejected-too-big"
+	} else if closed || !sentinel_ok {
+		"connection-ended"
+	} else if !replies.is_empty() {
+		"other-error-reply"
+	} else {
+		"no-reply"
+	};
+	out
+}
+
+// ---------------------------------------------------------------------------------------------------------------
+// Builder-order family: "the outcome depends only on this limit - not on ... any other setting". The configuration is put
+// together by calling the builder's setters in a seeded order (the two limits somewhere among the others, http_only() /
+// ws_only() before or after them); the gate must sit exactly at the limit that was set.
+
+async fn builder_order_case(seed: u64) -> (Evidence, Vec<Violation>) {
+	let mut ev = Evidence::new("");
+	let mut violations = Vec::new();
+	let mut r = Rng::new(seed);
+	let req = *r.pick(&[64u32, 100, 1000, 4096]);
+	let resp = *r.pick(&[64u32, 1000, 65536]);
+	let mode = r.below(3); // 0 both transports, 1 http_only, 2 ws_only
+	let mut steps: Vec<u8> = (0..12).collect();
+	if mode == 0 {
+		steps.retain(|s| *s != 10 && *s != 11);
+	} else if mode == 1 {
+		steps.retain(|s| *s != 11);
+	} else {
+		steps.retain(|s| *s != 10);
+	}
+	// seeded order
+	for i in (1..steps.len()).rev() {
+		steps.swap(i, r.usize(i + 1));
+	}
+	let mut b = ServerConfig::builder();
+	let mut names = Vec::new();
+	for s in &steps {
+		let (nb, name) = match s {
+			0 => (b.max_request_body_size(req), "max_request_body_size"),
+			1 => (b.max_response_body_size(resp), "max_response_body_size"),
+			2 => (b.max_connections(10_000), "max_connections"),
+			3 => (b.max_subscriptions_per_connection(7), "max_subscriptions_per_connection"),
+			4 => (b.set_batch_request_config(BatchRequestConfig::Unlimited), "set_batch_request_config"),
+			5 => (b.set_message_buffer_capacity(64), "set_message_buffer_capacity"),
+			6 => (if r.bool() { b.disable_ws_ping() } else { b.enable_ws_ping(jsonrpsee_server::PingConfig::new().ping_interval(Duration::from_secs(3600)).inactive_limit(Duration::from_secs(7200))) }, "ws_ping"),
+			7 => (b.set_id_provider(jsonrpsee_server::RandomIntegerIdProvider), "set_id_provider"),
+			8 => (b.set_tcp_no_delay(r.bool()), "set_tcp_no_delay"),
+			9 => (b.set_keep_alive(None).set_keep_alive_timeout(Duration::from_secs(30)), "set_keep_alive"),
+			10 => (b.http_only(), "http_only"),
+			_ => (b.ws_only(), "ws_only"),
+		};
+		b = nb;
+		names.push(name);
+	}
+	let log = Log::default();
+	let mut env = Env::with_cfg(b.build(), log);
+	let l = req as usize;
+	for size in [l - 1, l, l + 1, 2 * l] {
+		for shape in [Shape::EchoStr, Shape::U64Ws] {
+			let mut entries = Vec::new();
+			if mode != 2 {
+				entries.push((Entry::TowerHttp, Some(HttpVar { cl: if r.bool() { Cl::True } else { Cl::Absent }, cuts: { let c = 1 + r.usize(2); cuts_for(&mut r, size, c) } })));
+			}
+			if mode != 1 {
+				entries.push((Entry::TowerWs, None));
+			}
+			for (entry, http) in entries {
+				let p = ProbeSpec { entry, req, resp, size, shape, msg_seed: r.next_u64(), http, origin: "builder-order".into() };
+				let Some(m) = build_msg(p.shape, p.size, p.msg_seed) else { continue };
+				let o = env.run(&p, &m).await;
+				let mut vs = judge(&p, &m, &o);
+				for v in vs.iter_mut() {
+					v.signature = format!("{}/setters-in-another-order", v.signature);
+					v.witness["setter_order"] = json!(names);
+					v.witness["family"] = json!("builder-order");
+					v.witness["seed"] = json!(seed);
+				}
+				record(&mut ev, &mut violations, &p, &m, &o, vs);
+				ev.count("builder_order_probes", 1);
+			}
+		}
+	}
+	ev.class("builder_orders", &names);
+	(ev, violations)
+}
+
 fn server_cfg(req: u32, resp: u32) -> ServerConfig {
 	ServerConfig::builder().max_request_body_size(req).max_response_body_size(resp).max_connections(10_000).build()
 }
@@ -850,6 +1156,12 @@ impl Env {
 	fn new(req: u32, resp: u32) -> Env {
 		let log = Log::default();
 		let cfg = server_cfg(req, resp);
+		let srv = MemServer::new(cfg.clone(), handlers::echo_module(log.clone()));
+		let low = LowLevel::new(cfg.clone(), handlers::echo_module(log.clone()));
+		Env { cfg, log, srv, low, tower_ws: None, low_ws: None, n: 0 }
+	}
+
+	fn with_cfg(cfg: ServerConfig, log: Log) -> Env {
 		let srv = MemServer::new(cfg.clone(), handlers::echo_module(log.clone()));
 		let low = LowLevel::new(cfg.clone(), handlers::echo_module(log.clone()));
 		Env { cfg, log, srv, low, tower_ws: None, low_ws: None, n: 0 }
@@ -1312,6 +1624,17 @@ fn tcp_part(seed: u64, rounds: u64) -> (Evidence, TcpOut) {
 
 fn replay(ctx: &Ctx, path: &std::path::Path, mut ev: Evidence) -> ! {
 	let w: Value = serde_json::from_str(&std::fs::read_to_string(path).expect("replay file")).expect("json");
+	if w["witness"]["family"] == json!("fragments") || w["witness"]["family"] == json!("builder-order") {
+		let seed = w["witness"]["seed"].as_u64().unwrap_or(0);
+		let violations = if w["witness"]["family"] == json!("fragments") { block_on_virtual(fragment_case(seed)).violations } else { block_on_virtual(builder_order_case(seed)).1 };
+		ev.eval();
+		ev.nontrivial(&("family-replay", seed));
+		ev.nontrivial(&("family-replay-2", seed));
+		for v in &violations {
+			println!("replay violation: {} - {}", v.signature, v.detail);
+		}
+		finish(ctx, ev, violations, None);
+	}
 	if w["witness"]["family"] == json!("backpressure") {
 		let seed = w["witness"]["seed"].as_u64().unwrap_or(0);
 		let mut violations = Vec::new();
@@ -1414,7 +1737,8 @@ fn main() {
 	ev.assume("mode D: 'no further frame / no response' = idle for 10 virtual seconds on a paused clock");
 	ev.assume("back-pressure family (300 / 20000 cases): message buffer 1..2, transport buffer 2*limit+300..555 bytes, peer not reading, enough calls in flight to fill both, then one oversized frame, then 0..2 calls; after the peer reads again: exactly one -32007, no handler saw the oversized message, all other calls answered");
 	ev.assume("HTTP/2 family (400 / 20000 connections x 5 sizes around the limit): the request is a stream of an h2 connection, with / without content-length, body in 1..4 DATA frames; above the limit: no handler, no 200; within: the handler runs once, 200");
-	ev.assume("single-frame WebSocket text messages only (the statement's quantifier); fragmented messages are not sent");
+	ev.assume("grid, random and TCP parts: single-frame WebSocket text messages (the statement's quantifier). Fragment family (600 / 30000 cases): a peer that writes its own frames spreads a message of limit-1..2*limit-2 bytes over 2..3 frames of at most `limit` bytes each, with a ping or pong between fragments, or - a protocol error - finishes with an unfragmented frame; judged: a message above the limit never reaches a handler and no handler runs for anything but the message sent; how in-limit fragmented messages fare is counted, not judged (a pong between fragments ends the connection: soketto keeps its fragment state per receive call)");
+	ev.assume("builder-order family (150 / 6000 configurations x 4 sizes x 2 shapes): ServerConfigBuilder setters called in a seeded order, http_only() / ws_only() before or after the limits; same oracle as the grid");
 	ev.assume("understated Content-Length exists only on direct service calls; through an HTTP/1.1 connection the header is true or absent (chunked)");
 
 	if let Some(path) = ctx.replay.clone() {
@@ -1479,6 +1803,34 @@ fn main() {
 				ev.nontrivial(&("http2", i));
 			}
 			violations.extend(o.violations);
+		}
+	}
+	{
+		let n = ctx.tier.pick(600u64, 30_000);
+		let seed = ctx.seed;
+		let res = run_parallel((0..n).collect(), |_, i| {
+			let s = Rng::fork(seed ^ 0xf4a6, i).next_u64();
+			(s, block_on_virtual(fragment_case(s)))
+		});
+		for (s, o) in res {
+			ev.eval();
+			ev.count("fragment_cases", 1);
+			ev.count("fragment_frames_sent", o.frames_sent as u64);
+			ev.count(&format!("fragment_{}_{}_{}", if o.oversized { "oversized" } else { "in-limit" }, o.variant, o.outcome), 1);
+			if o.oversized && o.outcome != "setup-failed" {
+				ev.nontrivial(&("fragments", s));
+			}
+			violations.extend(o.violations);
+		}
+	}
+	{
+		let n = ctx.tier.pick(150u64, 6_000);
+		let seed = ctx.seed;
+		let res = run_parallel((0..n).collect(), |_, i| block_on_virtual(builder_order_case(Rng::fork(seed ^ 0xb01d, i).next_u64())));
+		for (e, v) in res {
+			ev.count("builder_order_cases", 1);
+			ev.merge(e);
+			violations.extend(v);
 		}
 	}
 	let mut inconclusive = None;
